@@ -196,7 +196,7 @@ func vfCSAttrText(a vfCSAttr, rnd *rand.Rand, plain bool) (string, error) {
 var (
 	vfCSFill   = "Lorem ipsum dolor sit amet, consectetur adipiscing elit &amp; sed do eiusmod \"tempor\" incididunt ut labore > et dolore;\n"
 	vfCSRunes  = map[int][]string{2: {"é", "ñ", "Ж"}, 3: {"€", "中", "ह"}, 4: {"\U0001F600", "\U0001D11E"}}
-	vfCSNever  = []byte{0xff, 0xfe, 0xf8, 0xc0, 0xc1, 0xf5}
+	vfCSNever  = []byte{0xff, 0xf8, 0xc0, 0xc1, 0xf5, 0xf9} // never 0xfe: two of these bytes at the start must not form a UTF-16 BOM
 	vfCSRawCl  = []string{"title", "style", "iframe", "noembed", "noscript"}
 	vfCSRawOp  = []string{"textarea", "xmp", "noframes", "plaintext", "script"}
 	vfCSTagSt  = []string{`<link rel=x charset=koi8-r`, `<metadata charset=koi8-r`, `<a title="<meta charset=koi8-r>"`, `<div content="text/html; charset=koi8-r" http-equiv=content-type`, `<metas charset="koi8-r"`, `<br charset=koi8-r /`, `<p title='<meta charset=koi8-r>' charset=koi8-r`}
